@@ -178,4 +178,18 @@ PROPS["C19"] = {
                     "zstd round-trips the model file"],
 }
 
+PROPS["C20"] = {
+    "families": ["C20"],
+    "bin_build": extras.build_repo_bins,
+    "nontrivial": lambda line, out: out.startswith("0:") and len(out) > 3,
+    "rule": "16 (quick) / 400 (thorough) random models (3/4 with tag models); for predict: input streams of 1-5 lines (empty lines, NUL, "
+            "spaces, slashes, backslashes, half-width and combining characters, flags, CRLF line ends, missing final newline) x ALL 16 "
+            "combinations of {--no-norm, --predict-tags, --scores, --tag-scores} x wsconst sets; for evaluate: tokenized reference lines "
+            "(tags, escapes, empty lines) x all 8 combinations of {--no-norm, --predict-tags, --metric word|char} x wsconst sets; the REAL "
+            "binaries built from the working tree are run as processes; non-trivial = distinct case with exit code 0 and output",
+    "scopes": {"quick": "all 16 predict flag combinations and all 8 evaluate flag combinations on every model", "thorough": "same"},
+    "assumptions": ["clap's flag parsing, process exit codes and stdout buffering are not modelled", "floats of evaluate are compared as "
+                    "text against the same f64 expressions evaluated by the harness; the Lean model covers the integer counts"],
+}
+
 SETUP_EXTRA = [extras.build_repo_bins, extras.setup_feature_builds, extras.build_tantivy]
